@@ -159,6 +159,18 @@ func (*Stream).ResetStats
   modifies s.mInput.val, s.mOutput.val, s.mInputDropped.val, s.mOutputDropped.val
   ensures all-four-books-start-again-from-zero: s.mInput.val == 0 && s.mOutput.val == 0 && s.mInputDropped.val == 0 && s.mOutputDropped.val == 0
 
+// the per-row evaluator of an aggregate's argument expression evaluates this aggregate's own expression on the row it is
+// given, answers with that value, and only reads the row (which may be the caller's own map)
+func (*DataProcessor).registerExpressionCalculator$1
+  props C03 C20 C01 C05 C07 C08 C09 C10 C12 C15 C17
+  option assumed_frame
+  observe val := evaluateExpressionForAggregation
+  observe verr := evaluateExpressionForAggregation#1
+  count evals := evaluateExpressionForAggregation
+  before evaluateExpressionForAggregation this-aggregates-own-expression-on-the-row-given: $arg1 == currentFieldExpr && hasType(data, map[string]any) && $arg2 == unbox(data, map[string]any)
+  atreturn a-row-is-evaluated-afresh-and-its-value-is-the-answer: hasType(data, map[string]any) ==> $evals == 1 && result0 == $val && result1 == $verr
+  atreturn anything-that-is-no-row-is-an-error: !hasType(data, map[string]any) ==> result1 != nil
+
 func NewDataProcessor
   props C05 C19 C01 C03 C07 C08 C09 C10 C12 C15 C17 C20
   ensures the-processor-serves-the-stream-it-was-built-for: fresh(result) && result.stream == stream
@@ -308,8 +320,8 @@ func (*DataProcessor).applyHavingWithCondition
   before ContainsIsNullOperator [C13] the-is-null-rewriting-continues-from-the-like-rewriting: $arg1 == ite($hasLike && $likeErr == nil, $like, old(dp.stream.config.Having))
   before PreprocessIsNullExpression [C13] the-is-null-rewriting-continues-from-the-like-rewriting: $arg1 == ite($hasLike && $likeErr == nil, $like, old(dp.stream.config.Having))
   before NewExprCondition [C13] the-text-compiled-is-the-having-text-after-both-rewritings: $arg0 == ite($hasNull && $nullErr == nil, $isnull, ite($hasLike && $likeErr == nil, $like, old(dp.stream.config.Having)))
-  ensures every-group-of-the-batch-is-tested-against-having: $cerr == nil ==> $tested == len(results)
-  ensures an-unusable-having-filters-nothing: $cerr != nil ==> seqeq(result, results)
+  atreturn every-group-of-the-batch-is-tested-against-having: $cerr == nil ==> $tested == len(results)
+  atreturn an-unusable-having-filters-nothing: $cerr != nil ==> seqeq(result, results)
   loop 1 invariant $tested == $i && $cerr == nil
   loop 1 invariant len(filteredResults) <= $i && forall(j, 0, len(filteredResults), exists(k, 0, $i, filteredResults[j] == $s[k]))
 
@@ -343,9 +355,17 @@ func (*DataProcessor).applyDistinct
   loop 1 invariant forall(j, 0, len(finalResults), exists(k, 0, $i, finalResults[j] == $s[k])) && $s == results
   loop 1 invariant a-row-that-cannot-be-compared-is-kept: $i > 0 && $serErr != nil ==> len(finalResults) > 0 && finalResults[len(finalResults) - 1] == $s[$i - 1]
 
-extern (*DataProcessor).applyHavingFilter
+// HAVING with a CASE expression, in whatever letter case the keyword is written, goes to the evaluator that understands
+// CASE; every other HAVING to the condition engine; the batch handed on is the one given
+func (*DataProcessor).applyHavingFilter
   props C07 C01 C03 C05 C08 C09 C10 C12 C15 C17 C20
   modifies allmaps
+  option assumed_frame
+  count viaCase := applyHavingWithCaseExpression
+  count viaCond := applyHavingWithCondition
+  before applyHavingWithCaseExpression the-batch-given-is-filtered: seqeq($arg1, results)
+  before applyHavingWithCondition the-batch-given-is-filtered: seqeq($arg1, results)
+  atreturn case-in-any-letter-case-selects-the-case-evaluator: ite(strings.Contains(strings.ToUpper(old(dp.stream.config.Having)), "CASE"), $viaCase == 1 && $viaCond == 0, $viaCase == 0 && $viaCond == 1)
 
 func (*Stream).applyOrderBy
   props C07 C05
@@ -527,9 +547,12 @@ func (*Stream).safeSendToDataChan
   ensures refusal-enqueues-nothing: !result ==> ghost(sends) == old(ghost(sends))
   ensures stopped-or-closed-refuses: old(s.stopped) == 1 || s.dataChan == nil ==> !result
 
+// the input buffer is swapped only on behalf of the expansion strategy: the senders of the other strategies hold the
+// channel outside the lock and would strand their rows on a buffer swapped behind their back
 func (*Stream).expandDataChannel
   props C19
   option channel_events
+  only_called_by (*ExpansionStrategy).ProcessData
   modifies s.expanding, s.dataChan, ghost(sends), ghost(recvs), ghost(timeouts_migrationTimeout), ghost(drained)
   before Unlock old-buffer-observed-empty-before-the-swap: wheld(s.dataChanMux) ==> ghost(drained) == 1 || ghost(timeouts_migrationTimeout) > old(ghost(timeouts_migrationTimeout))
   ensures migration-moves-every-row-it-takes: ghost(timeouts_migrationTimeout) == old(ghost(timeouts_migrationTimeout)) ==> ghost(sends) - old(ghost(sends)) == ghost(recvs) - old(ghost(recvs))
@@ -909,10 +932,23 @@ func (*analyticFieldEngine).evaluateMultiColumn
   loop 1 invariant true
   loop 2 invariant true
 
-extern (*analyticFieldEngine).evalWrapper
+// a wrapper expression is evaluated the same way for every row: the bridge first, on this field's own expression and this
+// row; only when the bridge fails on this row is the expr-package fallback used (parsed once, from the same expression)
+func (*analyticFieldEngine).evalWrapper
   props C14 C12
-  modifies *
-  ensures the-engines-own-bookkeeping-is-not-touched: fe.lastResults == old(fe.lastResults) && mapUnchanged(fe.lastResults) && fe.whenCond == old(fe.whenCond) && fe.af == old(fe.af)
+  option assumed_frame
+  modifies fe.wrapperParsed
+  count tried := EvaluateExpression
+  observe bval := EvaluateExpression
+  observe berr := EvaluateExpression#1
+  observe fval := EvaluateValueWithNull
+  observe fnull := EvaluateValueWithNull#1
+  observe ferr := EvaluateValueWithNull#2
+  before EvaluateExpression the-bridge-gets-this-fields-own-wrapper-expression-and-this-row: $arg1 == fe.af.WrapperExpr && $arg2 == data
+  before NewExpression the-fallback-is-parsed-from-the-same-expression: $arg0 == fe.af.WrapperExpr
+  before EvaluateValueWithNull the-fallback-evaluates-this-row: $arg1 == data
+  atreturn the-bridge-is-tried-for-every-row-whatever-earlier-rows-did: $tried == 1
+  atreturn the-bridges-answer-stands-when-it-has-one: $berr == nil ==> result0 == $bval && !result1 && result2 == nil
 
 func (*analyticFieldEngine).evaluate
   props C14 C12
